@@ -30,6 +30,9 @@ var sources = []gostatsd.Source{"10.0.0.1", "10.0.0.2", "10.0.0.3", ""}
 // (a provider is free to know an instance without having any tag for it).
 func instFor(t *rapid.T, s gostatsd.Source) *gostatsd.Instance {
 	in := &gostatsd.Instance{ID: gostatsd.Source("i-" + string(s))}
+	if rapid.IntRange(0, 3).Draw(t, "shared-instance") == 0 {
+		in.ID = "i-shared" // several addresses of one instance: their series coincide after enrichment
+	}
 	switch rapid.IntRange(0, 4).Draw(t, "instance-tags") {
 	case 0:
 	case 1:
